@@ -26,6 +26,9 @@ def gen_cases(tier):
             cfgs.append((rng.choice(gen.keep_choices(rng, d1, d2)), rng.random() < 0.5, o))
         if tier == "quick":
             cfgs = rng.sample(cfgs, min(4, len(cfgs)))
+        if schema == "tlp_degenerate":
+            # tactic 5 ahead of the others, on a degenerate optimum
+            cfgs = [([], False, [5]), ([], False, [5, 1, 2, 3, 4]), ([], True, [5, 2]), ([], True, [5])]
         cases.append({"id": i + 1, "raw": [d1, d2], "swap": swap, "schema": schema, "cfgs": cfgs, "sibling": i % 3 == 0})
     return cases
 
